@@ -11,7 +11,7 @@
    coefficients Coef(f, i) (i = global dof), so its interpolant on a face has exactly the
    coefficients Coef(f, i) of the face dofs i -- the expected values are integers.
 
-   Families of cases (constant Part selects one per TLC run):
+   Families of cases (constant Parts selects the families of a TLC run):
      faces    slice_indices / boundary_dofs (with every flip) / boundary_cells, compute_dirichlet_bc
               for scalar, constant and vector data (blocked numbering i + j*prod(shape))
      bcs      compute_dirichlet_bcs on every list of <= 2 conditions (faces may repeat, corners and
@@ -24,7 +24,7 @@ EXTENDS Integers, Sequences, FiniteSets, SequencesExt, FiniteSetsExt, TLC, Rat, 
 
 CONSTANTS Tier,     \* "quick" | "thorough"
           Dims,     \* set of dimensions explored in this run
-          Part      \* "faces" | "bcs" | "combine" | "init" | "reject"
+          Parts     \* subset of {"faces", "bcs", "combine", "init", "reject"}
 
 VARIABLES phase, sp, c
 vars == <<phase, sp, c>>
@@ -34,6 +34,9 @@ Prod(s) == FoldLeft(LAMBDA acc, v : acc * v, 1, s)
 SeqRange(s) == {s[k] : k \in 1..Len(s)}
 Injective(s) == \A a, b \in 1..Len(s) : a # b => s[a] # s[b]
 SortedSeq(S) == SetToSortSeq(S, <)
+\* TLC keeps [k \in 1..n |-> e] as a closure and re-evaluates e at every application; SubSeq turns it
+\* into an explicit tuple once
+Force(s) == SubSeq(s, 1, Len(s))
 
 \* C-order unravel / ravel, axis 1 (TLA+ numbering) slowest
 Unravel(i, shape) ==
@@ -47,14 +50,14 @@ DropAxis(s, ax) == [a \in 1..(Len(s) - 1) |-> IF a < ax THEN s[a] ELSE s[a + 1]]
 SliceMulti(ax, pos, shape, flip) ==
   LET rs == DropAxis(shape, ax)
       M  == Prod(rs)
-  IN [k \in 1..M |->
-        LET r == Unravel(k - 1, rs) IN
-        [a \in 1..Len(shape) |->
+  IN Force([k \in 1..M |->
+        LET r == Force(Unravel(k - 1, rs)) IN
+        Force([a \in 1..Len(shape) |->
            IF a = ax THEN pos
            ELSE LET b == IF a < ax THEN a ELSE a - 1 IN
-                IF flip[b] THEN shape[a] - 1 - r[b] ELSE r[b]]]
+                IF flip[b] THEN shape[a] - 1 - r[b] ELSE r[b]])])
 SliceDofs(ax, pos, shape, flip) ==
-  LET m == SliceMulti(ax, pos, shape, flip) IN [k \in 1..Len(m) |-> Ravel(m[k], shape)]
+  LET m == SliceMulti(ax, pos, shape, flip) IN Force([k \in 1..Len(m) |-> Ravel(m[k], shape)])
 NoFlip(D) == [b \in 1..(D - 1) |-> FALSE]
 
 \* names
@@ -88,7 +91,7 @@ FaceDofs(s, bd) == SliceDofs(bd.ax + 1, FaceSide(s, bd.ax + 1, bd.side), s.shape
 Init == phase = "start" /\ sp = <<>> /\ c = <<>>
 
 PickSpace ==
-  /\ phase = "start" /\ Part \in {"faces", "bcs", "init", "reject"}
+  /\ phase = "start" /\ Parts \cap {"faces", "bcs", "init", "reject"} # {}
   /\ \E D \in Dims : sp' \in Spaces(D)
   /\ phase' = "space" /\ c' = <<>>
   /\ Emit("SPACE", [D |-> sp'.D, shape |-> sp'.shape, deg |-> sp'.deg,
@@ -104,8 +107,8 @@ FaceCase(s, bd, hasflip, flip) ==
   LET ax1  == bd.ax + 1
       pos  == FaceSide(s, ax1, bd.side)
       m    == SliceMulti(ax1, pos, s.shape, flip)
-      dofs == [k \in 1..Len(m) |-> Ravel(m[k], s.shape)]
-      spn  == Spans(s)
+      dofs == Force([k \in 1..Len(m) |-> Ravel(m[k], s.shape)])
+      spn  == Force(Spans(s))
       cm   == SliceMulti(ax1, IF bd.side = 0 THEN 0 ELSE spn[ax1] - 1, spn, NoFlip(s.D))
   IN [kind |-> "face", D |-> s.D, shape |-> s.shape, deg |-> s.deg, bd |-> bd,
       hasflip |-> hasflip, flip |-> flip, multi |-> m, dofs |-> dofs,
@@ -114,7 +117,7 @@ FaceCase(s, bd, hasflip, flip) ==
       vec2 |-> Blocked(s, dofs, 2), vec3 |-> Blocked(s, dofs, 3)]
 
 Face ==
-  /\ phase = "space" /\ Part = "faces"
+  /\ phase = "space" /\ "faces" \in Parts
   /\ \E bd \in BdSpecs(sp.D) :
        \/ c' = FaceCase(sp, bd, FALSE, NoFlip(sp.D))
        \/ \E fl \in [1..(sp.D - 1) -> BOOLEAN] : c' = FaceCase(sp, bd, TRUE, fl)
@@ -123,7 +126,7 @@ Face ==
 
 \* slice_indices proper: every axis, every position incl. negative ones (wrap-around)
 Slice ==
-  /\ phase = "space" /\ Part = "faces"
+  /\ phase = "space" /\ "faces" \in Parts
   /\ \E ax \in 1..sp.D : \E pos \in (-sp.shape[ax])..(sp.shape[ax] - 1) :
        LET p0 == IF pos < 0 THEN pos + sp.shape[ax] ELSE pos
            m  == SliceMulti(ax, p0, sp.shape, NoFlip(sp.D)) IN
@@ -135,24 +138,24 @@ Slice ==
 (* --- several conditions -------------------------------------------------- *)
 \* conds: sequence of [bd, f]; a dof on several faces may take the value of any of them
 BcsCase(s, conds, shorthand) ==
-  LET faces == [q \in 1..Len(conds) |-> FaceDofs(s, conds[q].bd)]
-      U     == UNION {SeqRange(faces[q]) : q \in 1..Len(conds)}
+  LET faces == [q \in 1..Len(conds) |-> SeqRange(FaceDofs(s, conds[q].bd))]
+      U     == UNION {faces[q] : q \in 1..Len(conds)}
       us    == SortedSeq(U)
-      ents  == [k \in 1..Len(us) |->
+      ents  == Force([k \in 1..Len(us) |->
                   LET d  == us[k]
-                      qs == {q \in 1..Len(conds) : d \in SeqRange(faces[q])}
+                      qs == {q \in 1..Len(conds) : d \in faces[q]}
                       q0 == CHOOSE q \in qs : \A r \in qs : q <= r IN
                   [dof |-> d, adm |-> SortedSeq({Coef(conds[q].f, d) : q \in qs}),
-                   first |-> Coef(conds[q0].f, d), nfaces |-> Cardinality(qs)]]
+                   first |-> Coef(conds[q0].f, d), nfaces |-> Cardinality(qs)]])
   IN [kind |-> "bcs", D |-> s.D, shape |-> s.shape, deg |-> s.deg, conds |-> conds,
       shorthand |-> shorthand, entries |-> ents]
 
 AllFaces(D) == [q \in 1..(2 * D) |-> [name |-> "", ax |-> (q - 1) \div 2, side |-> (q - 1) % 2]]
 Bcs ==
-  /\ phase = "space" /\ Part = "bcs"
+  /\ phase = "space" /\ "bcs" \in Parts
   /\ \/ \E b1 \in BdSpecs(sp.D), f1 \in {1, 2} :
           c' = BcsCase(sp, <<[bd |-> b1, f |-> f1]>>, FALSE)
-     \/ \E b1 \in BdSpecs(sp.D), b2 \in PairSpecs(sp.D), f2 \in {1, 2} :
+     \/ \E b1 \in (IF Tier = "quick" THEN PairSpecs(sp.D) ELSE BdSpecs(sp.D)), b2 \in PairSpecs(sp.D), f2 \in {1, 2} :
           c' = BcsCase(sp, <<[bd |-> b1, f |-> 1], [bd |-> b2, f |-> f2]>>, FALSE)
      \/ \E f1 \in {1, 2} :         \* ("all", g)
           c' = BcsCase(sp, [q \in 1..(2 * sp.D) |-> [bd |-> AllFaces(sp.D)[q], f |-> f1]], TRUE)
@@ -177,7 +180,7 @@ CombineCase(bcs) ==      \* bcs: sequence of index sequences; value of entry k o
   IN [kind |-> "combine", bcs |-> bcs,
       vals |-> [q \in 1..Len(bcs) |-> [j \in 1..Len(bcs[q]) |-> 10 * q + j]], entries |-> ents]
 Combine ==
-  /\ phase = "start" /\ Part = "combine"
+  /\ phase = "start" /\ "combine" \in Parts
   /\ \/ \E b1 \in CSeqs(3) : c' = CombineCase(<<b1>>)
      \/ \E b1 \in CSeqs(3), b2 \in CSeqs(3) : c' = CombineCase(<<b1, b2>>)
      \/ \E b1 \in CSeqs(2), b2 \in CSeqs(2), b3 \in CSeqs(2) : c' = CombineCase(<<b1, b2, b3>>)
@@ -209,7 +212,7 @@ InitCase(s, tax, side, iv, physical) ==
       entries |-> [q \in 1..(2 * M) |-> IF q <= M THEN [dof |-> s0[q], val |-> v0[q]]
                                         ELSE [dof |-> s1[q - M], val |-> v1[q - M]]]]
 InitCond ==
-  /\ phase = "space" /\ Part = "init" /\ sp.D >= 2
+  /\ phase = "space" /\ "init" \in Parts /\ sp.D >= 2
   /\ \E tax \in 0..(sp.D - 1), side \in {0, 1}, iv \in 1..Len(Intervals), ph \in BOOLEAN :
        /\ ph => tax = 0                         \* G(x,t) = (G~(x), t): time is the last physical coordinate
        /\ c' = InitCase(sp, tax, side, iv, ph)
@@ -218,7 +221,7 @@ InitCond ==
 
 (* --- specifications that must be refused --------------------------------- *)
 Reject ==
-  /\ phase = "space" /\ Part = "reject"
+  /\ phase = "space" /\ "reject" \in Parts
   /\ \/ \E nm \in SeqRange(Names) \ ValidNames(sp.D) :
           c' = [kind |-> "reject", D |-> sp.D, shape |-> sp.shape, deg |-> sp.deg,
                 bd |-> [name |-> nm, ax |-> 0, side |-> 0]]
